@@ -521,8 +521,21 @@ fn check_rows(c: &mut Ctx, node: usize, when: &str, edit: &str) -> Result<(), St
                             }
                         }
                         None => {
-                            // field added after the row was written: null or default
-                            let ok = actual.is_null() || f.default;
+                            // field added after the row was written: it reads as its default value, or as null when it is nullable
+                            // (a row written while the field was still nullable stores an explicit null and keeps reading null)
+                            let ok = if actual.is_null() {
+                                true
+                            } else if f.default {
+                                match f.ty % 4 {
+                                    0 => actual.as_str() == Some("dflt"),
+                                    1 => actual.as_i64() == Some(7),
+                                    // a boolean default reads as the number 1 (the shipped test query_with_null_default asserts it)
+                                    2 => actual.as_bool() == Some(true) || actual.as_i64() == Some(1),
+                                    _ => actual.as_f64().map(|x| (x - 1.5).abs() < 1e-9).unwrap_or(false),
+                                }
+                            } else {
+                                actual.is_null()
+                            };
                             if !ok {
                                 c.w.violation("C15", &format!("row-unreadable-or-changed/{edit}"), format!("n{node} {when}: new field {name}.{} reads {actual} on an older row", f.name));
                             }
